@@ -403,11 +403,17 @@ func (f *Func) reachTarget(
 
 		// For value vertices, we discount any other values that share the
 		// same name. This lets our shortest paths prefer matching through
-		// same-named arguments.
+		// same-named arguments. A typed argument of a converter that is being
+		// reached on behalf of a named value inherits that value's name, so
+		// that the preference also holds for converters with further inputs.
+		discountName := state.NameHint
 		if currentValue, ok := current.(*valueVertex); ok {
+			discountName = currentValue.Name
+		}
+		if discountName != "" {
 			currentG = currentG.Copy()
 			for _, raw := range currentG.Vertices() {
-				if v, ok := raw.(*valueVertex); ok && v.Name == currentValue.Name {
+				if v, ok := raw.(*valueVertex); ok && v.Name == discountName {
 					for _, src := range currentG.InEdges(raw) {
 						currentG.AddEdgeWeighted(src, raw, weightMatchingName)
 					}
@@ -492,6 +498,12 @@ func (f *Func) reachTarget(
 						log.Trace("setting node value", "value", r.Value)
 						v.Value = r.Value
 					}
+
+					// A named value without a value of its own takes the
+					// value of the same-named value in front of it.
+					if r, ok := prev.(*valueVertex); ok && !v.Value.IsValid() {
+						v.Value = r.Value
+					}
 				}
 
 				// Store the last viewed vertex in our path state. This must
@@ -555,7 +567,27 @@ func (f *Func) reachTarget(
 					}
 				}
 
-				// Reach our arguments if they aren't already.
+				// Reach our arguments if they aren't already. If this path
+				// leads to a named value, its name is the preferred name
+				// for the typed arguments of the function.
+				prevHint := state.NameHint
+				if last, ok := path[len(path)-1].(*valueVertex); ok {
+					state.NameHint = last.Name
+				}
+
+				// Typed arguments of this function that are not on this path
+				// may still hold what an earlier execution of the function
+				// used; they have to be resolved again for this one.
+				for _, req := range g.OutEdges(v) {
+					ta, ok := req.(*typedArgVertex)
+					if !ok || (pathIdx > 0 && path[pathIdx-1] == req) {
+						continue
+					}
+					if _, done := state.Executed[graph.VertexID(v)]; done {
+						ta.Value = reflect.Value{}
+					}
+				}
+				state.Executed[graph.VertexID(v)] = struct{}{}
 				funcArgMap, err := f.reachTarget(
 					log, //log.Named(graph.VertexName(v)),
 					g,
@@ -564,6 +596,7 @@ func (f *Func) reachTarget(
 					state,
 					redefine,
 				)
+				state.NameHint = prevHint
 				if err != nil {
 					return nil, err
 				}
@@ -674,6 +707,15 @@ type callState struct {
 	// InProgress is the set of targets (by vertex ID) whose inputs are
 	// currently being satisfied further up the reachTarget recursion.
 	InProgress map[interface{}]struct{}
+
+	// Executed is the set of functions (by vertex ID) that were executed
+	// at least once during this call.
+	Executed map[interface{}]struct{}
+
+	// NameHint is the name of the named value on whose behalf a converter
+	// is currently being reached. Typed arguments of that converter prefer
+	// inputs with this name.
+	NameHint string
 }
 
 func newCallState() *callState {
@@ -682,5 +724,6 @@ func newCallState() *callState {
 		TypedValue: map[reflect.Type]reflect.Value{},
 		InputSet:   map[interface{}]graph.Vertex{},
 		InProgress: map[interface{}]struct{}{},
+		Executed:   map[interface{}]struct{}{},
 	}
 }
